@@ -270,8 +270,18 @@ pub fn check(prog: &Prog, kind: Kind, plan: &Plan, refrun: &RefRun, refnp: &RefR
                         && prog.inv_kind(t.inv, kind).is_async()
                         && refnp.fail_notes.iter().any(|n| n.0 == t.inv && n.1 == t.inst && n.2 == t.step)
                 });
+                // async macros build every branch chain of a step BEFORE the joiner polls anything: the synchronous part of a
+                // step-0 chain (initial value, synchronous prefix) is evaluated in every run, also when try_join! then returns
+                // at the first poll of a failing sibling and never polls this branch
+                let eager_unbuilt = in_async_failing_step
+                    && !e.gate
+                    && e.tag.len() == 1
+                    && e.tag[0].step == 0
+                    && prog.ev(e.ev).map(|m| m.eager).unwrap_or(false);
                 if expect_panic || obs.outcome == Outcome::Cancelled {
                     // cut short by a panic / cancellation: prefix-closure per segment is checked above
+                } else if eager_unbuilt {
+                    out.push(v("events_missing", evk, format!("event {}#{} is evaluated while its branch's chain is built, before anything is polled, but did not happen", e.ev, e.occ)));
                 } else if in_async_failing_step {
                     // legitimately cancelled sibling
                 } else if in_failing_step {
